@@ -8,6 +8,7 @@ def main(tier):
     chk = common.Check('C01', tier)
     chk.assumptions += [
         'CssDecl.tla is trusted as the reading of Selectors 3/4 for the modelled grammar',
+        'Ir.tla (Compile + right-to-left matcher) is checked against CssDecl by TLC on every enumerated document (T-AlgoEqDecl)',
         'documents are built through the bs4 API (html.parser / lxml-xml builders)',
     ]
     if tier == 'quick':
@@ -23,7 +24,9 @@ def main(tier):
                 ('MC_C01_logic', {'MaxNodes': 5, 'Nest': 2}, 'logic5'),
                 ('MC_C01_struct', {'MaxNodes': 4}, 'struct4')]
     for module, consts, label in runs:
-        replay.run_cfg(chk, module, consts, label)
+        # T-AlgoEqDecl: the implementation-shaped matcher over the compiled IR (Ir.tla) = the declarative semantics
+        inv = ('Emit', 'AlgoEqDecl') if (tier == 'thorough' or label in ('attr1', 'logic4', 'struct3')) else ('Emit',)
+        replay.run_cfg(chk, module, consts, label, invariants=inv)
     trace_part(chk, tier)
     return chk.finish()
 
